@@ -599,6 +599,8 @@ def run_fits(case):
         spec["fixed"][nm] = tb[nm] if v is None else v
     if any(0 < abs(tb[nm]) < 1e-3 for nm in names if nm not in spec["fixed"]):
         raise Discard("near-zero non-zero start value: the minimizer's initial step is derived from it, convergence from there is C06's subject")
+    if any(0 < abs(float(v)) < 1e-300 for v in list(tb.values()) + [v for v in spec["fixed"].values() if v is not None]):
+        raise Discard("denormal parameter value (the default step 0.1 * |value| underflows to 0): not a realistic input")
     with guard(f"build[{spec['type']}]"):
         fit = fs.build(spec)
     if case["fitted"]:
@@ -664,7 +666,7 @@ def run_fits(case):
         raise Discard("refit failed")
     va, ea, vb = np.asarray(fit.parameter_values, float), np.asarray(fit.parameter_errors, float), np.asarray(r.parameter_values, float)
     free = np.array([nm not in spec["fixed"] for nm in names])
-    if fit.parameter_cov_mat is None or not np.isfinite(fit.cost_function_value) or not np.all(np.isfinite(ea[free]) & (ea[free] > 1e-9 * np.maximum(1.0, np.abs(va[free])))):
+    if fit.parameter_cov_mat is None or not np.isfinite(fit.cost_function_value) or not np.all(np.isfinite(ea[free]) & (ea[free] > 1e-6 * np.maximum(1.0, np.abs(va[free])))):
         raise Discard("refit of the original did not produce a valid minimum (ill-posed problem: C05/C06's subject)")
     sd = np.where(free, ea, 1e-9 * np.maximum(1.0, np.abs(va)))
     if np.any(np.abs(va - vb) > 0.03 * sd):
